@@ -1,0 +1,38 @@
+// Copyright 2025 SCION Association
+//
+// Licensed under the Apache License, Version 2.0 (the "License");
+// you may not use this file except in compliance with the License.
+// You may obtain a copy of the License at
+//
+//   http://www.apache.org/licenses/LICENSE-2.0
+//
+// Unless required by applicable law or agreed to in writing, software
+// distributed under the License is distributed on an "AS IS" BASIS,
+// WITHOUT WARRANTIES OR CONDITIONS OF ANY KIND, either express or implied.
+// See the License for the specific language governing permissions and
+// limitations under the License.
+
+//go:build verif
+
+package udpip
+
+import (
+	"github.com/scionproto/scion/router"
+)
+
+// VerifComputeProcID exposes computeProcID (the receive-side parse every datagram goes through)
+// for model-based verification.
+func VerifComputeProcID(data []byte, numProcRoutines int, hashSeed uint32) (uint32, bool) {
+	return computeProcID(data, numProcRoutines, hashSeed)
+}
+
+// VerifInternalProcess runs the internal link's own packet processing (STUN) on p, as
+// internalLink.runProcessor does for the datagrams that are not SCION packets. isInternal is false
+// if l is not an internal link. After a nil error the packet is sent on p.Link unless that is nil.
+func VerifInternalProcess(l router.Link, p *router.Packet) (isInternal bool, err error) {
+	il, ok := l.(*internalLink)
+	if !ok {
+		return false, nil
+	}
+	return true, il.processPacket(p)
+}
